@@ -18,12 +18,8 @@ def _solver(timeout_ms):
     return s
 
 
-def _forked(constraints, timeout_ms, extract=None):
-    """z3 check in a forked child with a hard wall-clock limit (z3's own timeout is not honoured
-    inside some sequence-solver loops).  -> (verdict, extracted_or_None)"""
+def _spawn_z3(constraints, timeout_ms, extract):
     import json
-    import select
-    import signal
     r, w = os.pipe()
     pid = os.fork()
     if pid == 0:
@@ -35,7 +31,15 @@ def _forked(constraints, timeout_ms, extract=None):
                 s.add(c)
             res = s.check()
             if res == z3.sat:
-                payload = {'v': 'sat', 'x': extract(s.model()) if extract is not None else None}
+                m = s.model()
+                bad = False
+                if extract is not None:
+                    # a counterexample only counts after validation: every conjunct true under the model
+                    for c in constraints:
+                        if not z3.is_true(m.eval(c, model_completion=True)):
+                            bad = True
+                            break
+                payload = {'v': 'unknown'} if bad else {'v': 'sat', 'x': extract(m) if extract is not None else None}
             elif res == z3.unsat:
                 payload = {'v': 'unsat'}
             else:
@@ -49,66 +53,148 @@ def _forked(constraints, timeout_ms, extract=None):
         finally:
             os._exit(code)
     os.close(w)
-    deadline = time.time() + timeout_ms / 1000.0 + 2.0
-    chunks = []
-    verdict = None
-    while True:
-        left = deadline - time.time()
-        if left <= 0:
-            verdict = 'timeout'
-            break
-        rl, _, _ = select.select([r], [], [], left)
-        if not rl:
-            verdict = 'timeout'
-            break
-        b = os.read(r, 1 << 16)
-        if not b:
-            break
-        chunks.append(b)
-    if verdict == 'timeout':
+    return pid, r
+
+
+def _reap(pid, fd, kill=True):
+    import signal
+    if kill:
         try:
             os.kill(pid, signal.SIGKILL)
         except OSError:
             pass
-    os.close(r)
-    os.waitpid(pid, 0)
-    if verdict == 'timeout' or not chunks:
+    try:
+        os.close(fd)
+    except OSError:
+        pass
+    try:
+        os.waitpid(pid, 0)
+    except OSError:
+        pass
+
+
+def _read_all(fd, deadline):
+    """read until EOF or deadline; -> bytes or None on timeout"""
+    import select
+    chunks = []
+    while True:
+        left = deadline - time.time()
+        if left <= 0:
+            return None
+        rl, _, _ = select.select([fd], [], [], left)
+        if not rl:
+            return None
+        b = os.read(fd, 1 << 16)
+        if not b:
+            return b''.join(chunks)
+        chunks.append(b)
+
+
+def _forked(constraints, timeout_ms, extract=None):
+    """z3 check in a forked child with a hard wall-clock limit (z3's own timeout is not honoured
+    inside some sequence-solver loops).  -> (verdict, extracted_or_None)"""
+    import json
+    pid, r = _spawn_z3(constraints, timeout_ms, extract)
+    data = _read_all(r, time.time() + timeout_ms / 1000.0 + 2.0)
+    _reap(pid, r, kill=(data is None))
+    if not data:
         return 'unknown', None
     try:
-        payload = json.loads(b''.join(chunks).decode('utf-8'))
+        payload = json.loads(data.decode('utf-8'))
     except ValueError:
         return 'unknown', None
     return payload['v'], payload.get('x')
 
 
+CVC5_AFTER_S = 1.5
+
+
 def check(constraints, timeout_ms=20000, use_cvc5=True, cvc5_timeout_s=30, extract=None):
-    """returns (verdict, extracted_model_values_or_None, backend, seconds); a 'sat' from
-    cvc5 carries no model.  extract(model) must return JSON-able data (runs in the child)."""
+    """Portfolio: z3 (forked, hard limit); if it has not answered after CVC5_AFTER_S, cvc5 is started
+    in parallel on the same query and the first definite answer wins.
+    returns (verdict, extracted_model_values_or_None, backend, seconds); a 'sat' from cvc5 carries
+    no model.  extract(model) must return JSON-able data (runs in the child)."""
+    import json
+    import select
     t0 = time.time()
-    r, x = _forked(constraints, timeout_ms, extract)
-    dt = time.time() - t0
+    pid, r = _spawn_z3(constraints, timeout_ms, extract)
+    z3_deadline = t0 + timeout_ms / 1000.0 + 2.0
     STATS['z3_n'] += 1
-    STATS['z3_s'] += dt
-    if r == 'sat':
-        return 'sat', (x if extract is not None else True), 'z3', dt
-    if r == 'unsat':
-        return 'unsat', None, 'z3', dt
-    if use_cvc5:
-        t1 = time.time()
+    data = _read_all(r, min(z3_deadline, t0 + CVC5_AFTER_S)) if use_cvc5 else _read_all(r, z3_deadline)
+    cv = None
+    if data is None and use_cvc5:
+        # z3 still running: start cvc5 alongside
         s = z3.Solver()
         for c in constraints:
             s.add(c)
-        v, out = cvc5_check(s.to_smt2(), cvc5_timeout_s)
-        dt2 = time.time() - t1
+        text = _z3_to_cvc5(s.to_smt2())
+        cv = subprocess.Popen([sys.executable, os.path.join(_here, 'cvc5_run.py'), str(int(cvc5_timeout_s * 1000))],
+                              stdin=subprocess.PIPE, stdout=subprocess.PIPE, stderr=subprocess.DEVNULL)
+        try:
+            cv.stdin.write(text.encode('utf-8'))
+            cv.stdin.close()
+        except OSError:
+            pass
         STATS['cvc5_n'] += 1
-        STATS['cvc5_s'] += dt2
-        if v == 'unsat':
-            return 'unsat', None, 'cvc5', dt + dt2
-        if v == 'sat':
-            # no z3 model available; caller treats a model-less sat as 'sat' with None
-            return 'sat', None, 'cvc5', dt + dt2
+        cv_deadline = time.time() + cvc5_timeout_s + 5
+        cvout = b''
+        z3_done = False
+        while True:
+            now = time.time()
+            fds = []
+            if not z3_done and now < z3_deadline:
+                fds.append(r)
+            if cv is not None and now < cv_deadline:
+                fds.append(cv.stdout.fileno())
+            if not fds:
+                break
+            rl, _, _ = select.select(fds, [], [], 0.5)
+            if r in rl:
+                rest = _read_all(r, z3_deadline)
+                z3_done = True
+                data = rest
+                if data:
+                    try:
+                        payload = json.loads(data.decode('utf-8'))
+                        if payload['v'] in ('sat', 'unsat'):
+                            break
+                    except ValueError:
+                        pass
+                data = None
+            if cv is not None and cv.stdout.fileno() in rl:
+                b = os.read(cv.stdout.fileno(), 1 << 16)
+                if b:
+                    cvout += b
+                else:
+                    last = cvout.decode('utf-8', 'replace').strip().splitlines()
+                    v = last[-1].strip() if last else ''
+                    cv.wait()
+                    cv = None
+                    if v in ('sat', 'unsat'):
+                        _reap(pid, r, kill=True)
+                        dt = time.time() - t0
+                        STATS['cvc5_s'] += dt
+                        return v, None, 'cvc5', dt
+        if cv is not None:
+            try:
+                cv.kill()
+                cv.wait()
+            except OSError:
+                pass
+    _reap(pid, r, kill=(data is None))
+    dt = time.time() - t0
+    STATS['z3_s'] += dt
+    if data:
+        try:
+            payload = json.loads(data.decode('utf-8'))
+            if payload['v'] == 'sat':
+                return 'sat', (payload.get('x') if extract is not None else True), 'z3', dt
+            if payload['v'] == 'unsat':
+                return 'unsat', None, 'z3', dt
+        except ValueError:
+            pass
     STATS['unknown'] += 1
-    return 'unknown', None, 'z3', time.time() - t0
+    return 'unknown', None, 'z3', dt
 
 
 def feasible(constraints, timeout_ms=3000):
